@@ -469,20 +469,56 @@ def pyDecOfTuple (neg : Bool) (coef scale : Nat) : PyDec :=
 def truncQuot (neg : Bool) (num den : Nat) : Int :=
   if neg then -((num / den : Nat) : Int) else ((num / den : Nat) : Int)
 
-/-- xpath_tokens/base.py:879-893 (fix-c10) `string_value(float)` given `r = repr(x)`:
-NaN / INF / -INF, else strip a trailing `.0`-style fraction (fixed notation only), drop '+', upper-case
-an exponent form -/
+/-- xpath_tokens/base.py `string_value(float)` given `r = repr(x)` (the pinned helper, since fix-c10-7 used for zero and for
+the XPath 1.0 parser only): strip a trailing `.0`-style fraction (fixed notation only), drop '+', upper-case an exponent form -/
 def rstrip (c : Char) (s : Str) : Str := (s.reverse.dropWhile (· == c)).reverse
 
+def pinnedFloatStr (r : Str) : Str :=
+  let v := if r.contains '.' && !r.contains 'e' then rstrip '.' (rstrip '0' r) else r
+  let v := if v.contains '+' then v.filter (· != '+') else v
+  if v.contains 'e' then v.map Char.toUpper else v
+
+/-- `Decimal(repr(x)).as_tuple()` for the repr of a finite double: sign, the digits of the coefficient (an integer: no
+leading zeros, `'0'` for zero) and the exponent — `repr` is `[-]d+.d+` or `[-]d[.d+]e±dd` -/
+def decTupleOfRepr (r : Str) : Bool × Str × Int :=
+  let neg := r.head? == some '-'
+  let body := if neg then r.drop 1 else r
+  let mant := body.takeWhile (· != 'e')
+  let ex := (body.dropWhile (· != 'e')).drop 1
+  let ip := mant.takeWhile (· != '.')
+  let fp := (mant.dropWhile (· != '.')).drop 1
+  let coef := (ip ++ fp).dropWhile (· == '0')
+  (neg, if coef.isEmpty then ['0'] else coef, intOfLex ex - (fp.length : Int))
+
+/-- xpath_tokens/base.py `atomic_string_value` (fix-c10-7), the branch of a finite non-zero double, on the tuple
+`sign, digits, exponent = Decimal(repr(obj)).as_tuple()`: `text = digits.rstrip('0')`, `exponent += len(digits) - 1`,
+decimal notation for `-6 <= exponent < 6`, else `d.dddE<exponent>` -/
+def dblOfTuple (neg : Bool) (digits : Str) (exp : Int) : Str :=
+  let text := rstrip '0' digits
+  let e : Int := exp + (digits.length : Int) - 1
+  let body : Str :=
+    if -6 ≤ e ∧ e < 6 then
+      if e < 0 then '0' :: '.' :: (List.replicate ((-e).toNat - 1) '0' ++ text)
+      else if text.length ≤ e.toNat + 1 then text ++ List.replicate (e.toNat + 1 - text.length) '0'
+      else text.take (e.toNat + 1) ++ '.' :: text.drop (e.toNat + 1)
+    else
+      (match text with
+        | [] => ['0', '.', '0']
+        | d :: r => d :: '.' :: (if r.isEmpty then ['0'] else r)) ++ 'E' :: intCanon e
+  (if neg then ['-'] else []) ++ body       -- `prefix + …` in every return
+
+/-- the string of a double for fn:string, xs:string(), `cast as xs:string` and every function that takes the string value of
+an atomic argument (`atomic_string_value`, XPath 2.0+) -/
 def dblString (x : Dbl) (r : Str) : Str :=
   match x with
   | .nan => "NaN".toList
   | .pinf => "INF".toList
   | .ninf => "-INF".toList
-  | .fin _ _ _ =>
-    let v := if r.contains '.' && !r.contains 'e' then rstrip '.' (rstrip '0' r) else r
-    let v := if v.contains '+' then v.filter (· != '+') else v
-    if v.contains 'e' then v.map Char.toUpper else v
+  | .fin _ n _ =>
+    if n == 0 then pinnedFloatStr r
+    else
+      let t := decTupleOfRepr r
+      dblOfTuple t.1 t.2.1 t.2.2
 
 /-- `string_value(obj)` for the operand kinds of this corner -/
 def stringValue : Atom → Str
@@ -544,17 +580,6 @@ def cast (ver : Ver) (a : Atom) (t : Target) : Except CErr CVal :=
 
 /-- `E castable as xs:T` -/
 def castable (ver : Ver) (a : Atom) (t : Target) : Bool := (cast ver a t).toBool
-
-end EPV.Lex
-
-namespace EPV.Lex
-
-/-- trigger of known finding F10b, on the number of shortest digits of the double and its decimal
-exponent `e` (value = d.ddd × 10^e): the regions where `string_value` (Python `repr` post-processed)
-differs from the F&O canonical form. -/
-def dblStrTrigger (ndigits : Nat) (e : Int) : Bool :=
-  (e == -6 || e == -5) || (decide (6 ≤ e) && decide (e < 16)) || (decide (16 ≤ e) && ndigits == 1) ||
-  (decide (e < -6) && (ndigits == 1 || decide (-10 < e)))
 
 end EPV.Lex
 
